@@ -21,6 +21,8 @@ REQUIRED = [
     'Ems.C14.fan_oriented', 'Ems.C14.fan_inside', 'Ems.C14.fan_no_overlap',
     'Ems.C14.ear_inside_partial', 'Ems.C14.ear_terminates',
     'Ems.C14.cell_index_spec', 'Ems.C14.vertex_table_spec',
+    'Ems.C14.fan_cover', 'Ems.C14.fan_partition', 'Ems.C14.strictConvex_hyps', 'Ems.C14.ear_succeeds',
+    'Ems.C14.cell_count', 'Ems.C14.cell_area', 'Ems.C14.dataset_cell_triangles',
 ]
 RULE = ('(a) datasets of all five convention classes (holes = cells without geometry; UGRID meshes from '
         'gen_mesh mix triangles..octagons, concave L / pentagon faces, mid-edge collinear nodes, both windings, '
@@ -325,6 +327,8 @@ def do_dataset(ctx, recipe: dict, items: list, label: str, labels: list | None =
         conv = geos_convex(p)
         items.append((f'convex {ring_line(p)}', conv, dict(d, op='convex')))
         items.append((f'ears {ring_line(p)}', geos_ears(p), dict(d, op='ears')))
+        # the single hypothesis of fan_partition holds exactly where the code takes the fan path
+        items.append((f'strictconvex {ring_line(p)}', conv, dict(d, op='strictconvex')))
         if conv == '1':
             # the hypotheses of fan_oriented / fan_no_overlap / fan_inside hold wherever the fan path is taken
             items.append((f'fansorted {ring_line(p)}', '1', dict(d, op='fansorted')))
